@@ -1518,6 +1518,7 @@ pub async fn run_round(
             Stage::Ping => Some(json!({"k": "Ping", "payload": "p0", "probe": true})),
             Stage::SessCookie => Some(json!({"k": "LoginCookieResponse", "which": "session", "v": "absent", "probe": true})),
             Stage::AuthCookie => Some(json!({"k": "LoginCookieResponse", "which": "auth", "v": "absent", "probe": true})),
+            Stage::EncResp => Some(json!({"k": "EncryptionResponse", "c": "honest", "probe": true})),
             Stage::LoginAck => Some(json!({"k": "LoginAck", "probe": true})),
             Stage::Config => Some(json!({"k": "ClientInfo", "locale": "en_US", "probe": true})),
             _ => None,
